@@ -5,6 +5,7 @@ import BppProofs.Lemmas.HmmLogPost
 import BppProofs.Lemmas.HmmMarginal
 import BppProofs.Lemmas.HmmBreaks
 import BppProofs.Lemmas.HmmSite
+import BppProofs.Lemmas.HmmLogMarginal
 import BppProofs.Lemmas.HmmFullCache
 import BppProofs.Lemmas.HmmFullReal
 /-!
@@ -166,6 +167,17 @@ theorem logsum_posterior_prob (p : Params ℝ) (hn : 0 < p.n) (hp : PosP p) (e0 
       ∧ m.length = es.length + 1
       ∧ ∀ row ∈ m, (∀ x ∈ row, 0 ≤ x) ∧ row.sum = 1 ∧ row.length = p.n :=
   logPosterior_prob p hn hp e0 he0 es hes bps hv dE d2E
+
+/-- … and, as for the rescaled class, the posterior of state `j` at position `i` is the exact path marginal:
+entry `(i, j)` of `getHiddenStatesPosteriorProbabilities`, multiplied by the sum over all hidden paths, is the
+sum over the hidden paths that are in state `j` at position `i` -/
+theorem logsum_posterior_is_path_marginal (p : Params ℝ) (hn : 0 < p.n) (hp : PosP p) (e0 : Emis ℝ) (he0 : PosE e0)
+    (es : List (Emis ℝ)) (hes : ∀ e ∈ es, PosE e) (bps : List Nat) (hv : ValidBreaks (es.length + 1) bps)
+    (dE d2E : String → Emis ℝ × List (Emis ℝ)) (i : Nat) (hi : i < es.length + 1) (j : Nat) (hj : j < p.n) :
+    ∃ m row x, logPosterior { p := p, e0 := e0, es := es, dE := dE, d2E := d2E } bps = some m
+      ∧ m[i]? = some row ∧ row[j]? = some x
+      ∧ x * pathSum p e0 (mkSites es bps) = pathMarginal p e0 (mkSites es bps) i j :=
+  logPosterior_marginal p hn hp e0 he0 es hes bps hv dE d2E i hi j hj
 
 /-! ## Break points: `setBreakPoints` validates its argument (as repaired, abe9279) -/
 
